@@ -170,7 +170,12 @@ def main(argv_tier=None, replay_path=None):
                                                        "events": x["trace"]["ev"], "verdict": x["verdict"], "seed": seed()})
         vio_out.append(("%s step %d %s history=%s" % (x["trace"]["scheme"], x["verdict"]["step"], x["verdict"]["clause"],
                                                        ",".join(x["trace"]["history"])), p))
+    import growth
+    g = growth.routing(fx)
+    for o in g["observations"]:
+        print("OBSERVATION (outside the listed properties) %s" % o)
     cov = {
+        "growth": {"client_routing": g},
         "states": r.distinct, "transitions": r.generated,
         "traces_validated_against_impl": len(traces), "trace_validation_states": agg["distinct"],
         "evaluations": len(traces),
